@@ -129,4 +129,12 @@ theorem isPrivHost_mapped (a b c d : Nat) (ha : a < 256) (hb : b < 256) (hc : c 
   show (_ || mappedCheck _) = true
   rw [this, Bool.or_true]
 
+/-- a text whose first character lower-cases to a letter is refused by `parse_ipv4` and, if its lower-case form is one
+of the case-insensitively reserved names, classified private/reserved -/
+theorem isPrivHost_reserved_name (c : Char) (t : Str) (hc : isDigit c = false) (p : String) (hp : p ∈ kReservedNames)
+    (hl : p.toList = lower (c :: t)) : isPrivHost (c :: t) = true := by
+  unfold isPrivHost
+  have : kReservedNames.any (·.toList == lower (c :: t)) = true := List.any_eq_true.mpr ⟨p, hp, by simp [hl]⟩
+  simp only [List.isEmpty_cons, Bool.false_eq_true, if_false, parseIpv4_nondigit c t hc, v4OfList, this, Bool.or_true, if_true]
+
 end EphVerif.C34L
